@@ -175,6 +175,16 @@ package db
 //@   assert before call#1 AddDelta: res(checkAccessOfDocWithACP, 1, 0) && res(checkAccessOfDocWithACP, 1, 1) == nil
 //@   assert before call#1 checkAccessOfDocWithACP: arg2 == box(acpTypes.DocumentDeletePerm)
 //@   tags C10
+//@ // update / delete by filter: the selection only enforces read; every selected document goes through the
+//@ // access-checked single-document path (update: update permission, applyDelete: delete permission), never
+//@ // straight to save
+//@ func (*collection).updateWithFilter
+//@   loop 1 every-iteration call#1 update
+//@   ensures !called(save, 1)
+//@   tags C10
+//@ func (*collection).deleteWithFilter
+//@   loop 1 every-iteration call#1 applyDelete
+//@   tags C10
 //@ apply ErrFlow: (*collection).exists
 //@ func (*collection).exists
 //@   tolerates call#1 Get when is(e, corekv.ErrNotFound) "an absent primary key means the document does not exist: reported as (false, false, nil)"
